@@ -92,6 +92,9 @@ type rpcEv struct {
 	Got      []gotChange `json:"got,omitempty"`
 	Snapshot bool        `json:"snapshot,omitempty"`
 	Err      string      `json:"err,omitempty"`
+	// Dup: a retransmission of the request of the same client that was called just before
+	// it and is still in flight; its response is not applied by the client
+	Dup bool `json:"dup,omitempty"`
 }
 
 type rpcRecorder struct {
@@ -104,6 +107,52 @@ type rpcRecorder struct {
 
 func newRecorder() *rpcRecorder {
 	return &rpcRecorder{open: map[string]*rpcEv{}, attach: map[string]int{}}
+}
+
+// openDup / closeDup record a retransmission as an event of its own.
+func (r *rpcRecorder) openDup(rep *replica.Replica, pack *change.Pack) *rpcEv {
+	ev := &rpcEv{Client: rep.Name + "~retransmission", Actor: rep.ID.String(), Kind: "pushpull", Dup: true,
+		ReqS: pack.Checkpoint.ServerSeq, ReqC: pack.Checkpoint.ClientSeq}
+	for _, c := range pack.Changes {
+		ev.Pushed = append(ev.Pushed, c.ClientSeq())
+	}
+	r.mu.Lock()
+	ev.Attach = r.attach[rep.Name]
+	r.mu.Unlock()
+	ev.Call = r.tick.Add(1)
+	return ev
+}
+
+func (r *rpcRecorder) closeDup(ev *rpcEv, pb *api.ChangePack, err error) {
+	ev.Ret = r.tick.Add(1)
+	if err != nil {
+		ev.Err = err.Error()
+	} else if pb != nil {
+		if pb.Checkpoint != nil {
+			ev.RespS, ev.RespC = pb.Checkpoint.ServerSeq, pb.Checkpoint.ClientSeq
+		}
+		ev.Snapshot = len(pb.Snapshot) > 0
+		for _, c := range pb.Changes {
+			g := gotChange{}
+			if c.Id != nil {
+				g.ClientSeq = c.Id.ClientSeq
+				g.ServerSeq = c.Id.ServerSeq
+				if a, e := time.ActorIDFromBytes(c.Id.ActorId); e == nil {
+					g.Actor = a.String()
+				}
+			}
+			ev.Got = append(ev.Got, g)
+		}
+	}
+	r.mu.Lock()
+	r.evs = append(r.evs, *ev)
+	r.mu.Unlock()
+}
+
+func (r *rpcRecorder) isOpen(name string) bool {
+	r.mu.Lock()
+	defer r.mu.Unlock()
+	return r.open[name] != nil
 }
 
 func (r *rpcRecorder) OnRequest(rep *replica.Replica, kind string, pack *change.Pack) {
@@ -208,6 +257,9 @@ func checkLogAndResponses(evs []rpcEv, rows []logRow, res *runner.CaseResult) []
 			add("request-failed: %s %s (attachment %d): %s", e.Client, e.Kind, e.Attach, e.Err)
 			continue
 		}
+		if e.Dup {
+			continue // carries nothing its original does not carry
+		}
 		k := ak{e.Actor, e.Attach}
 		if _, ok := attIdx[k]; !ok {
 			attIdx[k] = len(pushedBy[e.Actor])
@@ -266,7 +318,7 @@ func checkLogAndResponses(evs []rpcEv, rows []logRow, res *runner.CaseResult) []
 		if e.RespC != e.ReqC {
 			add("client-seq-ack-mismatch: %s %s sent clientSeq %d, response acknowledges %d", e.Client, e.Kind, e.ReqC, e.RespC)
 		}
-		if p := last[k]; p != nil {
+		if p := last[k]; p != nil && !e.Dup {
 			if e.RespS < p.RespS || e.RespC < p.RespC {
 				add("checkpoint-not-monotone: %s attachment %d: (%d,%d) after (%d,%d)", e.Client, e.Attach, e.RespS, e.RespC, p.RespS, p.RespC)
 			}
@@ -275,7 +327,9 @@ func checkLogAndResponses(evs []rpcEv, rows []logRow, res *runner.CaseResult) []
 				res.AddStat("note_request_cp_differs_from_last_response", 1)
 			}
 		}
-		last[k] = e
+		if !e.Dup {
+			last[k] = e
+		}
 		if e.PushOnly {
 			if len(e.Got) > 0 || e.RespS != e.ReqS {
 				add("push-only-pulled: %s push-only request returned %d changes, S %d -> %d", e.Client, len(e.Got), e.ReqS, e.RespS)
@@ -420,6 +474,7 @@ func porcupineCheck(evs []rpcEv, rows []logRow) porcupine.CheckResult {
 	}
 	var ops []porcupine.Operation
 	seen := map[string]uint32{}
+	lastIDs := map[string][]string{}
 	cid := map[string]int{}
 	for _, e := range evs {
 		if e.Err != "" {
@@ -430,11 +485,18 @@ func porcupineCheck(evs []rpcEv, rows []logRow) porcupine.CheckResult {
 		}
 		k := fmt.Sprintf("%s#%d", e.Actor, e.Attach)
 		in := pIn{Actor: e.Actor, Own: k + "/", ReqS: e.ReqS, PushOnly: e.PushOnly, Snapshot: e.Snapshot}
-		for _, cs := range e.Pushed {
-			if cs > seen[k] {
-				seen[k] = cs
-				in.IDs = append(in.IDs, fmt.Sprintf("%s/%d", k, cs))
+		if e.Dup {
+			// the same ids as its original (called just before it): whichever of the two the
+			// server handles first appends them, the model's append is idempotent
+			in.IDs = append(in.IDs, lastIDs[k]...)
+		} else {
+			for _, cs := range e.Pushed {
+				if cs > seen[k] {
+					seen[k] = cs
+					in.IDs = append(in.IDs, fmt.Sprintf("%s/%d", k, cs))
+				}
 			}
+			lastIDs[k] = in.IDs
 		}
 		out := pOut{RespS: e.RespS}
 		for _, g := range e.Got {
@@ -453,7 +515,16 @@ func porcupineCheck(evs []rpcEv, rows []logRow) porcupine.CheckResult {
 			s := st.(pState)
 			in := input.(pIn)
 			out := output.(pOut)
-			ns := pState{ids: append(append([]string(nil), s.ids...), in.IDs...)}
+			ns := pState{ids: append([]string(nil), s.ids...)}
+			for _, id := range in.IDs {
+				dup := false
+				for i := len(s.ids) - 1; i >= 0 && !dup; i-- {
+					dup = s.ids[i] == id
+				}
+				if !dup {
+					ns.ids = append(ns.ids, id)
+				}
+			}
 			if in.PushOnly {
 				return out.RespS == in.ReqS && len(out.Got) == 0, ns
 			}
@@ -608,6 +679,8 @@ func (w *c04Worker) runParallel(res *runner.CaseResult, idx int) {
 		r.Obs = rec
 		reps[i] = r
 	}
+	var dupSent atomic.Int64
+	defer func() { res.AddStat("racing_retransmissions", dupSent.Load()) }()
 	start := make(chan struct{})
 	for i := 0; i < nCli; i++ {
 		wg.Add(1)
@@ -638,7 +711,50 @@ func (w *c04Worker) runParallel(res *runner.CaseResult, idx int) {
 						return
 					}
 				}
-				if err := r.Sync(ctx, lr.Intn(100) < 15); err != nil {
+				if lr.Intn(100) < 12 {
+					// a retransmission races its original: the same request is in flight twice
+					// (what a client-side timeout with a retry produces while the server is still
+					// busy with the first copy). The client applies the original's response only.
+					if err := r.SyncBegin(false); err != nil {
+						fail(r.Name + " sync: " + err.Error())
+						return
+					}
+					req, pack := r.Pending.Req, r.Pending.ReqPack
+					dup, back := make(chan struct{}), make(chan struct{})
+					go func() {
+						defer close(dup)
+						// the copy leaves after the original's call event is on record (its effect
+						// then falls inside the original's call/return window, where the history
+						// checkers place it) and never after the original has returned
+						for !rec.isOpen(r.Name) {
+							select {
+							case <-back:
+								return
+							default:
+								runtime.Gosched()
+							}
+						}
+						if d := int(req.ChangePack.Checkpoint.ClientSeq) % 3; d > 0 {
+							gotime.Sleep(gotime.Duration(d*150) * gotime.Microsecond)
+						}
+						dupSent.Add(1)
+						ev := rec.openDup(r, pack)
+						pb, err := r.SendRaw(ctx, req)
+						rec.closeDup(ev, pb, err)
+					}()
+					err := r.SyncSend(ctx)
+					close(back)
+					<-dup
+					if err != nil {
+						r.Pending = nil
+						fail(r.Name + " sync (with a racing retransmission): " + err.Error())
+						return
+					}
+					if err := r.SyncEnd(); err != nil {
+						fail(r.Name + " sync (with a racing retransmission): " + err.Error())
+						return
+					}
+				} else if err := r.Sync(ctx, lr.Intn(100) < 15); err != nil {
 					fail(r.Name + " sync: " + err.Error())
 					return
 				}
